@@ -40,7 +40,7 @@ Print Assumptions C16_queue_not_blocked.
 (* witness of the repaired defect: "GET a; GET b", b answered, a stalls; after the scan the client has
    the timeout error for a followed by b's reply (it used to get only the error, out of order, and
    the queue stayed blocked); a's late reply is dropped and a new request is served *)
-Definition w_cfg_t := {| cf_limit := 1000; cf_password := []; cf_timeout := true; cf_max_active := 1 |}.
+Definition w_cfg_t := {| cf_limit := 1000; cf_password := []; cf_timeout := true; cf_max_active := 1; cf_replica_reads := false; cf_reps := [] |}.
 Example C16_witness :
   w_got (run (init_state w_cfg_t w2_pools w2_slots)
            [EConnect 0 true; EClientData 0 (enc_request [bs "get"; bs "a"] ++ enc_request [bs "get"; bs "b"]) []; ETasks [];
